@@ -2,6 +2,7 @@ package main
 
 import (
 	"fmt"
+	"os"
 	"go/token"
 	"go/types"
 	"sort"
@@ -279,8 +280,8 @@ func (fc *FuncCtx) execCall0(fr *Frame, st *State, site ssa.Instruction, c *ssa.
 		if pureMethod(c.Method.Name(), full) {
 			return mkResult(nil)
 		}
-		fc.u.Assumptions["call through interface "+full+" without contract: arbitrary effect on all modelled heap (sound default)"] = true
-		fc.havocAll(st)
+		fc.u.Assumptions["call through interface "+full+" without contract: may write every object whose type is reachable from the receiver/arguments or implements an interface passed to it"] = true
+		fc.havocExternal(st, c)
 		fc.bumpAlloc(st)
 		return mkResult(nil)
 	}
@@ -341,8 +342,8 @@ func (fc *FuncCtx) execCall0(fr *Frame, st *State, site ssa.Instruction, c *ssa.
 		fc.u.Assumptions["dependency "+fn.String()+" assumed not to write modelled state; result unconstrained"] = true
 		return mkResult(nil)
 	}
-	fc.u.Assumptions["dependency "+fn.String()+" without contract: arbitrary effect on all modelled heap (sound default)"] = true
-	fc.havocAll(st)
+	fc.u.Assumptions["dependency "+fn.String()+" without contract: may write every object whose type is reachable from its arguments or implements an interface passed to it"] = true
+	fc.havocExternal(st, c)
 	fc.bumpAlloc(st)
 	return mkResult(nil)
 }
@@ -1340,4 +1341,147 @@ func (fc *FuncCtx) tryEvalBool(ev *Env, e Expr) (g string, ok bool) {
 		}
 	}()
 	return ev.evalBool(e), true
+}
+
+// havocExternal: effect of code outside the repository for which there is no contract. It can only write
+//  - objects whose (struct) type is reachable from the static types of the arguments it is handed (through pointers,
+//    slices, maps, struct fields), including the operand types of interface conversions at the call;
+//  - objects of in-repo types that implement an interface-typed argument (it may call their methods);
+//  - the elements of slices / entries of maps reachable in the same way; ghost state attached to those types;
+// and, if it is handed a function value, anything (that function may be ours).
+func (fc *FuncCtx) havocExternal(st *State, c *ssa.CallCommon) {
+	types_ := map[string]bool{}  // type keys of objects that may be written
+	elems := map[string]bool{}   // element type keys
+	maps_ := map[string]bool{}
+	ghostOwners := map[string]bool{}
+	anything := false
+	var walk func(t types.Type, depth int)
+	seen := map[string]bool{}
+	walk = func(t types.Type, depth int) {
+		if depth > 4 || t == nil {
+			return
+		}
+		k := typeKey(t)
+		if seen[k] {
+			return
+		}
+		seen[k] = true
+		if n, ok := t.(*types.Named); ok {
+			ghostOwners[shortTypeName(n)] = true
+			if n.Obj().Pkg() != nil {
+				ghostOwners[n.Obj().Pkg().Path()+"."+n.Obj().Name()] = true
+			}
+		}
+		switch u := t.Underlying().(type) {
+		case *types.Pointer:
+			types_[typeKey(u.Elem())] = true
+			walk(u.Elem(), depth+1)
+		case *types.Slice:
+			elems[typeKey(u.Elem())] = true
+			walk(u.Elem(), depth+1)
+		case *types.Array:
+			elems[typeKey(u.Elem())] = true
+			walk(u.Elem(), depth+1)
+		case *types.Map:
+			maps_[typeKey(u.Key())+"!"+typeKey(u.Elem())] = true
+			walk(u.Key(), depth+1)
+			walk(u.Elem(), depth+1)
+		case *types.Chan:
+			walk(u.Elem(), depth+1)
+		case *types.Struct:
+			types_[typeKey(t)] = true
+			for i := 0; i < u.NumFields(); i++ {
+				walk(u.Field(i).Type(), depth+1)
+			}
+		case *types.Signature:
+			// a function value handed over directly may be one of ours; function-typed fields of the structures it
+			// can reach are not followed (listed assumption)
+			if depth == 0 {
+				anything = true
+			}
+		case *types.Interface:
+			if u.NumMethods() == 0 {
+				// interface{}: dynamic type unknown unless it was converted at this call (handled by the caller)
+				return
+			}
+			// in-repo types implementing it may have their methods called (only for interfaces handed over directly:
+			// following interface-typed fields of those types further would reach nearly every type)
+			if depth > 0 {
+				return
+			}
+			for _, nt := range fc.eng.repoNamedTypes() {
+				if types.Implements(nt, u) || types.Implements(types.NewPointer(nt), u) {
+					types_[typeKey(nt)] = true
+					walk(nt, depth+1)
+				}
+			}
+		}
+	}
+	visit := func(v ssa.Value) {
+		if mi, ok := v.(*ssa.MakeInterface); ok {
+			walk(mi.X.Type(), 0)
+			return
+		}
+		if _, isEmpty := v.Type().Underlying().(*types.Interface); isEmpty && v.Type().Underlying().(*types.Interface).NumMethods() == 0 {
+			// an interface{} value of unknown dynamic type
+			if _, isConst := v.(*ssa.Const); !isConst {
+				anything = true
+			}
+			return
+		}
+		walk(v.Type(), 0)
+	}
+	for _, a := range c.Args {
+		visit(a)
+	}
+	if c.IsInvoke() {
+		visit(c.Value)
+	}
+	if os.Getenv("SFDEBUG") != "" {
+		_, full := calleeNames(c)
+		fmt.Fprintf(os.Stderr, "havocExternal %s anything=%v types=%v\n", full, anything, sortedKeys(types_))
+	}
+	if anything {
+		fc.havocAll(st)
+		fc.bumpAlloc(st)
+		return
+	}
+	match := func(key string) bool {
+		switch {
+		case strings.HasPrefix(key, "O!"):
+			rest := key[2:]
+			for t := range types_ {
+				if rest == t || strings.HasPrefix(rest, t+".") {
+					return !fc.eng.immutableKey(key)
+				}
+			}
+		case strings.HasPrefix(key, "E!"):
+			rest := key[2:]
+			for t := range elems {
+				if rest == t || strings.HasPrefix(rest, t+".") {
+					return true
+				}
+			}
+		case strings.HasPrefix(key, "MH!"), strings.HasPrefix(key, "MV!"), strings.HasPrefix(key, "ML!"):
+			rest := key[3:]
+			for t := range maps_ {
+				if rest == t || strings.HasPrefix(rest, t+".") {
+					return true
+				}
+			}
+		case strings.HasPrefix(key, "X!"):
+			rest := key[2:]
+			for o := range ghostOwners {
+				if strings.HasPrefix(rest, o+".") {
+					return true
+				}
+			}
+		case strings.HasPrefix(key, "G!"):
+			// package-level variables of this repository are not reachable from a dependency
+			return false
+		}
+		return false
+	}
+	fc.havocKeys(st, match, "")
+	fc.bumpAlloc(st)
 }
